@@ -17,7 +17,8 @@ LAYER = {1: "part-map: what a reader of the document in memory sees after this o
          3: "roundtrip: the saved file, read back independently, is not the part map of the document (part lost, invented or changed)",
          4: "file: the saved file differs from the model's file",
          5: "abstraction: duplicate keys in the abstracted state",
-         6: "reads-neutral: a part set in memory has no current time stamp, the next get_part replaces it by the file's content"}
+         6: "reads-neutral: a part set in memory has no current time stamp, the next get_part replaces it by the file's content",
+         7: "rdf-replaced: save replaced a manifest.rdf held in memory and listed in the manifest by the default one"}
 WEIGHTS = dict(get=3, touch=4, edit=5, set=2, setxml=3, setnew=2, **{"del": 2}, addfile=2, save=6, saveself=2, reopen=5, clone=2)
 
 
@@ -55,6 +56,14 @@ def make_histories(tier, rng):
                    dict(op="touch", name="content.xml"), dict(op="save", packaging="zip", target="buf", pretty=False), dict(op="reopen", r=2)])
         hs.append([dict(st), dict(op="edit", name="content.xml", how="par", arg="x  y"), dict(op="save", packaging="xml", target="path", pretty=False),
                    dict(op="save", packaging="xml", target="buf", pretty=True), dict(op="save", packaging="folder", target="path", pretty=None), dict(op="reopen", r=1)])
+    # F35: a package without manifest.rdf, opened by path / by buffer; the user provides one and lists it; save
+    import zipfile
+    nordf = [s for s in small if "manifest.rdf" not in zipfile.ZipFile(s).namelist()][:2]
+    RDFX = '<rdf:RDF xmlns:rdf="http://www.w3.org/1999/02/22-rdf-syntax-ns#"><rdf:Description rdf:about="user"/></rdf:RDF>'
+    for s in nordf:
+        for st in (dict(op="copyopen", src=s), dict(op="open", src=s, buf=True)):
+            hs.append([st, dict(op="import", name="manifest.rdf", data=RDFX, mt="application/rdf+xml"), dict(op="save", packaging="zip", target="buf", pretty=False),
+                       dict(op="reopen", r=1), dict(op="get", name="manifest.rdf")])
     return hs
 
 
@@ -63,11 +72,14 @@ def key_of(recs, i, code):
     cls = k
     if k == "set" and pkglib.is_xml_name(c["name"]):
         cls = "set-xml-part"
+    elif k == "save" and code == 7:
+        first = recs[0]["concrete"]["op"]
+        cls = "save/%s" % ("path-opened" if first == "copyopen" or (first == "open" and not recs[0]["concrete"].get("buf")) else "other")
     elif k == "save":
         cls = "save-%s%s" % (c.get("packaging", "zip"), "-pretty" if (c.get("pretty") or (c.get("pretty") is None and c.get("packaging") in ("folder", "xml"))) else "")
     elif k in ("touch", "get", "edit") and any(r["concrete"]["op"] == "open" and isinstance(r["concrete"].get("src"), int) for r in recs[:i]):
         cls = k + "-after-reopen"
-    return "%s/%s" % (cls, {1: "part-map", 2: "result", 3: "roundtrip", 4: "file", 5: "abstraction", 6: "stale-time-stamp"}.get(code, str(code)))
+    return "%s/%s" % (cls, {1: "part-map", 2: "result", 3: "roundtrip", 4: "file", 5: "abstraction", 6: "stale-time-stamp", 7: "manifest-rdf-replaced"}.get(code, str(code)))
 
 
 def run(tier, seed, replay=None):
